@@ -56,7 +56,11 @@ namespace {
          regions.push_back({ global, global, -1, MustBe, &unit_iface->global_namespace(), "global region", 0 });
       }
 
-      void err(const std::string& key, const std::string& what) { errors.push_back(key + "\t" + what); }
+      void err(std::string key, const std::string& what)
+      {
+         for (auto& c : key) if (c == ' ') c = '-';
+         errors.push_back(key + "\t" + what);
+      }
 
       int add(const ipr::Region& r, ipr::impl::Region* h, int parent, OwnerRule rule, const ipr::Expr* owner, const std::string& what)
       {
